@@ -629,3 +629,41 @@ Proof.
   cbv zeta. split; [vm_compute; reflexivity|]. split; [|split; vm_compute; reflexivity].
   intro H. apply heap_okb_spec in H. vm_compute in H. discriminate.
 Qed.
+
+Lemma pq_pop_keeps (l : list entry) (e : entry) (h : list entry) :
+  heap_ok l -> heap_pop l = Some (e, h) -> heap_ok h /\ forall x, In x l -> (sc x <= sc e)%Z.
+Proof. intros H1 H2. split; [exact (heap_pop_ok l e h H1 H2)|exact (heap_pop_max l e h H1 H2)]. Qed.
+
+Lemma pq_multiset (l : list entry) :
+  (forall x, Permutation (heap_push l x) (x :: l)) /\
+  (forall e h, heap_pop l = Some (e, h) -> Permutation l (e :: h)).
+Proof. split; [exact (heap_push_perm l)|exact (heap_pop_perm l)]. Qed.
+
+Lemma pq_all_sequences (init : list entry) (ops : list hop) : heap_ok (hrun (heap_of init) ops).
+Proof. exact (hrun_ok ops (heap_of init) (heap_of_ok init)). Qed.
+
+Lemma pq_fuel :
+  (forall f1 f2 l j, j < f1 -> j < f2 -> up_f f1 l j = up_f f2 l j) /\
+  (forall f1 f2 l i n, n - i <= f1 -> n - i <= f2 -> down_f f1 l i n = down_f f2 l i n).
+Proof. split; [exact up_fuel_irrelevant|exact down_fuel_irrelevant]. Qed.
+
+Lemma pq_pop_never (init : list entry) (k : nat) (sch : list sev) (t : nat) :
+  let s := crun (c_init init k) sch in
+  nth_error (c_pcs s) t = Some HasToken -> exists e h, heap_pop (c_heap s) = Some (e, h).
+Proof. exact (inv_pop_ok _ _ t (reach_inv init k sch)). Qed.
+
+Lemma pq_push_never (init : list entry) (k : nat) (sch : list sev) (t : nat) :
+  let s := crun (c_init init k) sch in
+  nth_error (c_pcs s) t = Some Pushed -> c_tok s < c_cap s.
+Proof. exact (inv_send_ok _ _ t (reach_inv init k sch)). Qed.
+
+Lemma pq_no_lost (init : list entry) (k : nat) (sch : list sev) :
+  let s := crun (c_init init k) sch in
+  (forall t c1 c2, nth_error (c_pcs s) t = Some Idle -> 0 < c_tok s ->
+     exists p, nth_error (c_pcs (crun s [Thr t c1; Thr t c2])) t = Some (Holding p)) /\
+  (cnt is_hastoken (c_pcs s) = 0 -> cnt is_pushed (c_pcs s) = 0 -> c_tok s = length (c_heap s)).
+Proof.
+  split.
+  - intros t c1 c2. exact (inv_wakeup _ _ t c1 c2 (reach_inv init k sch)).
+  - exact (inv_quiescent _ _ (reach_inv init k sch)).
+Qed.
